@@ -274,7 +274,8 @@ class Obligation(object):
 
 
 class Ctx(object):
-    FEAS_TIMEOUT_MS = 1500
+    FEAS_TIMEOUT_MS = 1000
+    FEAS_TIMEOUT_QUANT_MS = 120
 
     def __init__(self, prefix=()):
         self.prefix = list(prefix)
@@ -290,6 +291,9 @@ class Ctx(object):
         self.depth = 0
         self.frozen = False       # True while evaluating merged sub expressions: forks forbidden -> handled by sub explorer
         self.notes = []
+        self.has_quant = False
+        self.phase = 'body'       # 'pre' | 'body' | 'post'
+        self.post_prunes = 0      # spec/post paths refuted by the feasibility solver (each is a discharged obligation)
 
     # -- decisions
     def choose(self, conds):
@@ -320,9 +324,18 @@ class Ctx(object):
             raise Infeasible()
         self.pc.append(cond)
         self.solver.add(cond)
+        if not self.has_quant:
+            sx = cond.sexpr()
+            if '(forall ' in sx or '(exists ' in sx:
+                # satisfiable quantified path conditions make z3 search for a model until the timeout; refutations are
+                # fast: keep pruning but with a short budget (unknown = feasible, which is sound)
+                self.has_quant = True
+                self.solver.set('timeout', self.FEAS_TIMEOUT_QUANT_MS)
         if check:
             r = self.solver.check()
             if r == z3.unsat:
+                if self.phase == 'post':
+                    self.post_prunes += 1
                 raise Infeasible()
 
     def branch(self, cond):
